@@ -33,6 +33,7 @@ type CallSpec struct {
 	ReadPat  int // 0 read to EOF, 1 exact length then Close, 2 small random reads
 	ReadPat3 int // pattern for arg3 when it differs from arg2's: value-1 (0 = same as ReadPat)
 	CancelAfter time.Duration // >0: the caller cancels its context after this long
+	LateRead    time.Duration // >0: the handler is busy this long between reading arg2 and reading arg3
 	ReadPause   time.Duration // >0: the caller is busy this long between writing the request and reading the response
 	ChunkPause  time.Duration // >0: the caller reads the response piecewise and is busy this long after each piece
 	Opts     *tchannel.CallOptions
@@ -118,7 +119,7 @@ func (c *CallRec) completedNormally() bool {
 }
 
 func (c *CallRec) cmd() string {
-	return fmt.Sprintf("tag=%s;mode=%s;delay=%d;code=%d;rs2=%d;rs3=%d;msg=%s", c.Spec.Tag, c.Spec.Mode, int64(c.Spec.Delay), c.Spec.Code, c.Spec.Rs2, c.Spec.Rs3, c.Spec.Msg)
+	return fmt.Sprintf("tag=%s;mode=%s;delay=%d;code=%d;rs2=%d;rs3=%d;late=%d;msg=%s", c.Spec.Tag, c.Spec.Mode, int64(c.Spec.Delay), c.Spec.Code, c.Spec.Rs2, c.Spec.Rs3, int64(c.Spec.LateRead), c.Spec.Msg)
 }
 
 // encodeKV builds a thrift-scheme arg2: nh:2 (k~2 v~2)*.
@@ -231,6 +232,27 @@ func expectedResponse(tag string, rs2, rs3 int, pad2, req3 []byte) ([]byte, []by
 }
 
 // writeArg writes data with the given pattern.
+// hasPoison: does b contain a run of the byte the tracking pool fills released frames with?
+// (payloads are position- and tag-dependent and never contain such a run)
+func hasPoison(b []byte) bool {
+	run := 0
+	for _, x := range b {
+		if x == 0xA5 {
+			run++
+			if run >= 16 {
+				return true
+			}
+		} else {
+			run = 0
+		}
+	}
+	return false
+}
+
+// flushProbe counts explicit flushes issued by the write patterns (index: how many more follow
+// back to back); copied into the run's probes.
+var flushProbe [3]int
+
 func writeArgRaw(wr tchannel.ArgWriter, err error, data []byte, pat int) error {
 	if err != nil {
 		return err
@@ -242,6 +264,28 @@ func writeArgRaw(wr tchannel.ArgWriter, err error, data []byte, pat int) error {
 		}
 	default:
 		rest := data
+		// explicit flushes at any point: before the first byte, repeated with nothing (or an
+		// empty write) in between, and right before Close
+		flushes := func() error {
+			if pat != 3 {
+				return nil
+			}
+			for k := app(8); k >= 5; k-- { // 5: one flush, 6: two, 7: three
+				flushProbe[k-5]++
+				if err := wr.Flush(); err != nil {
+					return err
+				}
+				if k > 5 && app(3) == 2 {
+					if _, err := wr.Write(nil); err != nil {
+						return err
+					}
+				}
+			}
+			return nil
+		}
+		if err := flushes(); err != nil {
+			return err
+		}
 		for len(rest) > 0 {
 			n := len(rest)
 			switch pat {
@@ -272,6 +316,9 @@ func writeArgRaw(wr tchannel.ArgWriter, err error, data []byte, pat int) error {
 				if err := wr.Flush(); err != nil {
 					return err
 				}
+			}
+			if err := flushes(); err != nil {
+				return err
 			}
 		}
 	}
@@ -489,6 +536,9 @@ func (w *World) checkCallOutcome(r *CallRec) {
 			d := fmt.Sprintf("call %s (%s, mode %s) reported success with wrong data: arg2 %s, arg3 %s, appErr=%v want %v",
 				s.Tag, s.Via, s.Mode, diffDesc(r.Res2, r.wantRes2), diffDesc(r.Res3, r.wantRes3), r.AppErr, wantApp)
 			w.violate("C04", "wrong-response", "%s", d)
+			if hasPoison(r.Res2) || hasPoison(r.Res3) {
+				w.violate("C12", "read-after-release", "%s\nthe bytes handed to the caller contain the pattern the pool writes into a frame when it is handed back: the library read a frame it no longer owned", d)
+			}
 			w.violate("C05", "wrong-response-as-success", "%s", d)
 			if r.AppErr != wantApp {
 				w.violate("C20", "app-flag", "%s", d)
@@ -570,25 +620,58 @@ func (h *echoHandler) Handle(ctx context.Context, call *tchannel.InboundCall) {
 		return
 	}
 	mode := cmd["mode"]
+	checkArgs := func(a3 []byte) {
+		obs.ArgsRead = true
+		if rec != nil {
+			obs.Arg2OK = bytes.Equal(a2, rec.Req2Dest)
+			obs.Arg3OK = bytes.Equal(a3, rec.Req3)
+			w.eval("C04.request-match")
+			if !obs.Arg2OK || !obs.Arg3OK {
+				d := fmt.Sprintf("handler on %s received wrong arguments for call %s as a complete request: arg2 %s arg3 %s", h.n.Name, tag, diffDesc(a2, rec.Req2Dest), diffDesc(a3, rec.Req3))
+				w.violate("C04", "wrong-request", "%s", d)
+				w.violate("C01", "wrong-request", "%s", d)
+				if rec.Spec.Via != "direct" {
+					w.violate("C08", "wrong-request", "%s", d)
+				}
+				if hasPoison(a2) || hasPoison(a3) {
+					w.violate("C12", "read-after-release", "%s\nthe bytes handed to the handler contain the pattern the pool writes into a frame when it is handed back: the library read a frame it no longer owned", d)
+				}
+			}
+		}
+	}
+	if late, _ := strconv.ParseInt(cmd["late"], 10, 64); late > 0 {
+		// the handler is busy between the arguments (its deadline may pass meanwhile)
+		sleep(time.Duration(late))
+		w.probe("handler.late-arg3-read")
+	}
+	if mode == "respfirst" {
+		// the complete response goes out BEFORE the rest of the request is read; what is
+		// read afterwards must be an error or the caller's bytes
+		rs2, _ := strconv.Atoi(cmd["rs2"])
+		rs3, _ := strconv.Atoi(cmd["rs3"])
+		r2, r3 := expectedResponse(tag, rs2, rs3, pad, nil)
+		resp := call.Response()
+		e := writeArg(resp.Arg2Writer())(r2, 0)
+		if e == nil {
+			e = writeArg(resp.Arg3Writer())(r3, 0)
+		}
+		obs.RespErr = e
+		a3, err := readArg(call.Arg3Reader())(0, 0)
+		if err != nil {
+			obs.ReadErr = err
+			w.probe("handler.respfirst-read-error")
+			return
+		}
+		w.probe("handler.respfirst-read-ok")
+		checkArgs(a3)
+		return
+	}
 	a3, err := readArg(call.Arg3Reader())(0, 0)
 	if err != nil {
 		obs.ReadErr = err
 		return
 	}
-	obs.ArgsRead = true
-	if rec != nil {
-		obs.Arg2OK = bytes.Equal(a2, rec.Req2Dest)
-		obs.Arg3OK = bytes.Equal(a3, rec.Req3)
-		w.eval("C04.request-match")
-		if !obs.Arg2OK || !obs.Arg3OK {
-			d := fmt.Sprintf("handler on %s received wrong arguments for call %s as a complete request: arg2 %s arg3 %s", h.n.Name, tag, diffDesc(a2, rec.Req2Dest), diffDesc(a3, rec.Req3))
-			w.violate("C04", "wrong-request", "%s", d)
-			w.violate("C01", "wrong-request", "%s", d)
-			if rec.Spec.Via != "direct" {
-				w.violate("C08", "wrong-request", "%s", d)
-			}
-		}
-	}
+	checkArgs(a3)
 	delay, _ := strconv.ParseInt(cmd["delay"], 10, 64)
 	if delay > 0 {
 		t := time.NewTimer(time.Duration(delay))
